@@ -22,16 +22,17 @@
     possible value inside "..."), [Zp t] the help of a positional written through the in-line
     replace chain of [write_positionals_of] after " -- " was prefixed.
 
-    [conflicts_with] is a parameter of the model ([bl], see [arg_conflicts]).  Outside the model (not expressible in
-    the spec formats the correspondence uses, and [AotTree.arg] does not carry them): [value_names] ([vn] is " "),
-    [value_terminator], [last], argument groups, conflicts on global arguments. *)
+    Round 4: [AotTree.arg] carries [value_names], [value_terminator], [last], the blacklist ([conflicts_with*]) and the
+    groups an argument names ([Arg::group(s)]; [_build_self] makes the [ArgGroup]s from them), so the former parameter
+    [bl] is gone: [vn] of an option spec, [arg_is_last] / [arg_terminator] of [write_positionals_of], and
+    [Command::get_arg_conflicts_with] -- blacklist entries that name a GROUP expand to its members; an entry that cannot be
+    resolved is the [panic!] / [expect] of the Rust code, a visible [None] ([arg_conflicts_opt]; [get_args_of] returns
+    [None] when any option or flag of the command has such an entry).  Outside the model: explicit [ArgGroup] declarations
+    ([Command::group]: nested groups, member order other than argument order) -- no spec format expresses them. *)
 From ClapModel Require Import Base.Bytes Complete.AotTree Complete.BashModel Complete.FishModel Escape.EscapeModel.
 From Coq Require Import String.
 Open Scope N_scope.
 Open Scope list_scope.
-
-Section Blacklist.
-Variable bl : cmd -> arg -> list bytes.
 
 (** ---- pieces ---- *)
 Inductive zpiece := Zx (b : bytes) | Zh (t : bytes) | Zp (t : bytes).
@@ -113,35 +114,77 @@ Definition zvalue_completion (p : arg * adesc) : option (list zpiece) :=
   end.
 
 (** ---- arg_conflicts ---- *)
-(** [Arg::blacklist] ([conflicts_with*]): [AotTree.arg] has no such field, so the blacklist is a parameter of the
-    model -- a function of the command that owns the argument and the argument ([bl c a] = the ids, in declaration
-    order); the driver supplies it from the spec, every theorem holds for every such function.
-    [Command::get_subcommands_containing] *)
+(** [Command::get_subcommands_containing] *)
 Fixpoint subcommands_containing (c : cmd) (id : bytes) {struct c} : list cmd :=
   match c with
   | mkCmd _ _ _ subs _ _ _ _ _ =>
       flat_map (fun s => if existsb (fun a => beq (a_id a) id) (c_args s) then s :: subcommands_containing s id else []) subs
   end.
-(** [Command::get_arg_conflicts_with] restricted to argument ids (groups are outside the model).  An id that names no
-    argument is skipped: for a non-global argument clap's configuration check excludes it; for a global argument the
-    Rust code panics ([expect]) when the target is not found in the command or the subcommands that contain the
-    argument -- conflicts ON global arguments are outside the modelled class (no generated tree has one) *)
-Definition get_arg_conflicts_with (x : cmd) (blacklist : list bytes) (a : arg) : list arg :=
-  if a_global a then      (* get_global_arg_conflicts_with *)
-    filter_map (fun id => find (fun y => beq (a_id y) id)
-                               (c_args x ++ flat_map c_args (subcommands_containing x (a_id a))))
-               blacklist
-  else filter_map (find_arg x) blacklist.
+(** [Command::find_group] on the groups [_build_self] makes from [Arg::group(s)]: the group exists iff an argument names it *)
+Definition in_group (g : bytes) (a : arg) : bool := existsb (beq g) (a_groups a).
+Definition find_group (x : cmd) (id : bytes) : bool := existsb (in_group id) (c_args x).
+(** [ArgGroup::args] of that group: [_build_self] walks the arguments in order and pushes the argument's id once per
+    mention of the group in [a.groups] *)
+Definition group_members (x : cmd) (g : bytes) : list bytes :=
+  flat_map (fun a => map (fun _ : bytes => a_id a) (filter (beq g) (a_groups a))) (c_args x).
+(** [Command::unroll_args_in_group]: [if !args.contains(n) { if self.find(n).is_some() { args.push(n) } else { g_vec.push(n) } }];
+    a member that is no argument is a nested group, looked up with [expect(INTERNAL_ERROR_MSG)]: with groups made from
+    [Arg::group] every member is an argument of [x] ([unroll_total] in ZshProofs.v), the branch is kept visible *)
+Definition unroll_args_in_group (x : cmd) (g : bytes) : option (list bytes) :=
+  fold_left (fun acc n =>
+               match acc with
+               | None => None
+               | Some l => if existsb (beq n) l then Some l
+                           else if is_some (find_arg x n) then Some (l ++ [n])
+                           else None
+               end) (group_members x g) (Some []).
+(** one blacklist entry of a non-global argument: the argument of that id, else the members of the group of that id
+    ([self.find(id).expect(INTERNAL_ERROR_MSG)] each), else
+    [panic!("Command::get_arg_conflicts_with: The passed arg conflicts with an arg unknown to the cmd")] *)
+Definition conflict_targets (x : cmd) (id : bytes) : option (list arg) :=
+  match find_arg x id with
+  | Some y => Some [y]
+  | None =>
+      if find_group x id then
+        match unroll_args_in_group x id with
+        | Some ids => map_opt (find_arg x) ids
+        | None => None
+        end
+      else None
+  end.
+(** [Command::get_global_arg_conflicts_with]: every entry is looked up among the ARGUMENTS of the command and of the
+    subcommands that contain the argument -- groups are not consulted -- with
+    [expect("Command::get_arg_conflicts_with: The passed arg conflicts with an arg unknown to the cmd")] *)
+Definition get_global_arg_conflicts_with (x : cmd) (a : arg) : option (list arg) :=
+  map_opt (fun id => find (fun y => beq (a_id y) id)
+                          (c_args x ++ flat_map c_args (subcommands_containing x (a_id a))))
+          (a_blacklist a).
+(** [Command::get_arg_conflicts_with]; [None] = the Rust code panics *)
+Definition get_arg_conflicts_with (x : cmd) (a : arg) : option (list arg) :=
+  if a_global a then get_global_arg_conflicts_with x a
+  else match map_opt (conflict_targets x) (a_blacklist a) with
+       | Some ls => Some (List.concat ls)
+       | None => None
+       end.
 Definition push_conflicts (conflicts : list arg) : list bytes :=
   flat_map (fun x => (match a_short x with Some s => [lit "-" ++ s] | None => [] end)
                      ++ (match a_long x with Some l => [lit "--" ++ l] | None => [] end)) conflicts.
-(** [c] is the command being written; it owns [a], whose blacklist is [bl c a] *)
+(** [c] is the command being written; it owns [a] *)
+Definition arg_conflicts_opt (c : cmd) (a : arg) (app_global : option cmd) : option bytes :=
+  match (match app_global, a_global a with
+         | Some x, true => get_arg_conflicts_with x a
+         | _, _ => get_arg_conflicts_with c a
+         end) with
+  | None => None
+  | Some conflicts =>
+      Some (if is_nil conflicts then [] else lit "(" ++ intercalate (lit " ") (push_conflicts conflicts) ++ lit ")")
+  end.
+(** the string [arg_conflicts] returns when it returns; the panic is hoisted into [get_args_of] ([conflicts_resolve]):
+    [write_opts_of] and [write_flags_of] call [arg_conflicts] for exactly the non-positional arguments of the command *)
 Definition arg_conflicts (c : cmd) (a : arg) (app_global : option cmd) : bytes :=
-  let conflicts := match app_global, a_global a with
-                   | Some x, true => get_arg_conflicts_with x (bl c a) a
-                   | _, _ => get_arg_conflicts_with c (bl c a) a
-                   end in
-  if is_nil conflicts then [] else lit "(" ++ intercalate (lit " ") (push_conflicts conflicts) ++ lit ")".
+  match arg_conflicts_opt c a app_global with Some b => b | None => [] end.
+Definition conflicts_resolve (c : cmd) (app_global : option cmd) : bool :=
+  forallb (fun a => is_some (arg_conflicts_opt c a app_global)) (filter (fun a => negb (a_is_positional a)) (c_args c)).
 
 Definition multiple_of (a : arg) : bytes :=
   match a_action a with ACount | AAppend => lit "*" | _ => [] end.
@@ -149,11 +192,14 @@ Definition multiple_of (a : arg) : bytes :=
 (** ---- write_opts_of ---- *)
 (** [Command::get_opts] / [utils::flags] on the decorated arguments: [FishModel.is_opt], [FishModel.is_flag] *)
 
-(** [vc.repeat(o.get_num_args().expect("built").min_values())]; [vn] is " " (no value names) *)
+(** [vn]: [" "] without value names, else the first one, written as it is *)
+Definition value_name (a : arg) : bytes := match a_value_names a with [] => lit " " | v :: _ => v end.
+(** [vc.repeat(o.get_num_args().expect("built").min_values())] *)
 Definition opt_vc (p : arg * adesc) : list zpiece :=
+  let vn := value_name (fst p) in
   let vc := match zvalue_completion p with
-            | Some val => Zx (lit ": :") :: val
-            | None => [Zx (lit ": : ")]
+            | Some val => Zx (lit ":" ++ vn ++ lit ":") :: val
+            | None => [Zx (lit ":" ++ vn ++ lit ": ")]
             end in
   List.concat (repeat vc (N.to_nat (a_min_values (fst p)))).
 
@@ -196,9 +242,9 @@ Definition write_flags_of (c : cmd) (d : cdesc) (g : option cmd) : list zpiece :
   zjoin znl (flat_map (flag_lines c g) (filter is_flag (zipd ad0 (c_args c) (cd_args d)))).
 
 (** ---- write_positionals_of ---- *)
-(** [Arg::is_last_set] / [get_value_terminator]: not carried by [AotTree.arg] (outside the modelled class) *)
-Definition arg_is_last (a : arg) : bool := false.
-Definition arg_terminator (a : arg) : option bytes := None.
+(** [Arg::is_last_set] / [get_value_terminator] *)
+Definition arg_is_last (a : arg) : bool := a_last a.
+Definition arg_terminator (a : arg) : option bytes := a_terminator a.
 
 Definition positional_line (cardinality : bytes) (p : arg * adesc) : list zpiece :=
   [Zx (lit "'" ++ cardinality ++ lit ":" ++ a_id (fst p))]
@@ -232,7 +278,8 @@ Definition write_positionals_of (c : cmd) (d : cdesc) : list zpiece :=
 
 (** ---- get_args_of ---- *)
 Definition args_header : list zpiece := [Zx (lit "_arguments ""${_arguments_options[@]}"" : \")].
-Definition get_args_of (c : cmd) (d : cdesc) (p_global : option cmd) : option (list zpiece) :=
+(** what [get_args_of] returns when no [arg_conflicts] call panics *)
+Definition args_body (c : cmd) (d : cdesc) (p_global : option cmd) : option (list zpiece) :=
   let opts := write_opts_of c d p_global in
   let flags := write_flags_of c d p_global in
   let positionals := write_positionals_of c d in
@@ -250,6 +297,9 @@ Definition get_args_of (c : cmd) (d : cdesc) (p_global : option cmd) : option (l
                             [Zx (lit "&& ret=0")]]))
     end
   else Some (zjoin znl (segments ++ [[Zx (lit "&& ret=0")]])).
+Definition get_args_of (c : cmd) (d : cdesc) (p_global : option cmd) : option (list zpiece) :=
+  if negb (conflicts_resolve c p_global) then None   (* the [panic!] / [expect] of [get_arg_conflicts_with] in [arg_conflicts] *)
+  else args_body c d p_global.
 
 (** ---- get_subcommands_of ---- *)
 Definition space_to_hyphen : bytes -> bytes := replace_byte 32 [45].
@@ -379,4 +429,3 @@ Definition generate_zsh (c : cmd) (d : cdesc) (bin : bytes) : option bytes :=
   | Some b => zsh_script b (dbuild (set_bin_name c bin) d)
   | None => None
   end.
-End Blacklist.
